@@ -358,14 +358,17 @@ def main():
         "wall_s": round(wall, 2),
         "violations": n_viol,
     }
-    os.makedirs(os.path.join(VERIF, "evidence"), exist_ok=True)
+    # evidence/ holds only what was measured on /repo itself; an evaluation run against another tree (VERIF_REPO, used by
+    # seed_eval.py for seeded changes and refactors) writes its evidence beside the replays, where it is not committed
+    evid_dir = "evidence" if os.environ.get("VERIF_REPO", "/repo") == "/repo" else os.path.join("replays", "tmp-eval-evidence")
+    os.makedirs(os.path.join(VERIF, evid_dir), exist_ok=True)
     try:
         text = json.dumps(ev, indent=1, sort_keys=True, default=str)
     except Exception:  # noqa: BLE001
         ev["coverage"]["samples"] = []
         ev["coverage"]["histogram"] = {str(k): v for k, v in (coverage.get("histogram") or {}).items()}
         text = json.dumps(ev, indent=1, default=str)
-    with open(os.path.join(VERIF, "evidence", f"{prop}.json"), "w") as fh:
+    with open(os.path.join(VERIF, evid_dir, f"{prop}.json"), "w") as fh:
         fh.write(text)
     for l in lines:
         print(l)
